@@ -132,11 +132,12 @@ def clean : Op → Bool
   | .dropTable _ _ f _ _ _ => f.isNone
   | .addColumn _ _ _ kw => kw.isEmpty
   | .dropColumn _ _ _ kw _ => kw.isEmpty
-  | .createIndex _ f => f.isNone
+  | .createIndex ix f => f.isNone && ix.kw.all (fun p => p.1 != "unique")   -- kw = dialect kwargs only
   | .dropIndex _ _ _ f _ _ => f.isNone
   | .addConstraint c => consClean c
   | .dropConstraint _ _ _ _ _ => true
   | .alterColumn a => a.modifyName.isNone
+  | .createTableComment _ _ c _ => c.isSome     -- `comment=None` is a drop_table_comment in disguise
   | .modifyTable _ _ ops => cleanL ops
   | _ => true
 def cleanL : List Op → Bool
@@ -174,7 +175,7 @@ def triToOpt : Tri → Option String
   | .val s => some s
   | _ => none
 
-/-- the column after `alter_column` (no rename: renames are outside the partial theorem) -/
+/-- the attributes of the column after `alter_column` (the rename is done by `apply`) -/
 def alterCol (a : Alter) (c : Col) : Col :=
   { c with
     ty := a.modifyType.getD c.ty
@@ -215,7 +216,12 @@ def apply (o : Op) (db : DB) : Option DB :=
   | .alterColumn a =>
     onTable db (a.schema, a.table) (fun t =>
       match t.cols a.column with
-      | some c => some { t with cols := upd t.cols a.column (some (alterCol a c)) }
+      | some c =>
+        match a.modifyName with
+        | none => some { t with cols := upd t.cols a.column (some (alterCol a c)) }
+        | some n =>
+          if (t.cols n).isSome then none
+          else some { t with cols := upd (upd t.cols a.column none) n (some { alterCol a c with name := n }) }
       | none => none)
   | .createTableComment table schema comment _ =>
     onTable db (schema, table) (fun t => some { t with comment := comment })
